@@ -104,7 +104,7 @@ fn feed_key_importers(sink: &mut Sink, input: &[u8]) {
 
 /// a verification run over a link directory seeded with hostile files
 fn hostile_dir_case(sink: &mut Sink, r: &mut Rng, pool: &[KeyInfo], forced: Option<&str>) {
-    let mut g = e2e::Gen { r, pool, insp_counter: 0, force_delegate: false, multi_party: false, co_delegate: false, now: e2e::base_now() };
+    let mut g = e2e::Gen { r, pool, insp_counter: 0, force_delegate: false, multi_party: false, co_delegate: false, now: e2e::base_now(), reuse_keys: vec![] };
     let mut s = g.valid(1, false);
     // half of the time the scenario itself is faulty in one of the catalogued ways (threshold 0 with no
     // evidence, missing / unauthorized links, expired or tampered sub-layouts, ...): unusual but
